@@ -466,7 +466,8 @@ def install():
         sw = ctx.live.get(id(self))
         if sw is None:
             return
-        ent = {"type": "profile", "demand": _demand(loading_strategy), "name": profile.name}
+        ent = {"type": "profile", "demand": _demand(loading_strategy), "name": profile.name,
+               "available_at": ctx.clock + loading_strategy.runtime.time}
         sw["residents"][("profile", id(profile))] = ent
         import workload as wl
         rep = []
